@@ -47,6 +47,7 @@ type Violation struct {
 	Trace   []string          `json:"trace,omitempty"`
 	Path    []Decision        `json:"-"`
 	Notes   map[string]string `json:"notes,omitempty"`
+	Known   string            `json:"known,omitempty"` // description of the matching known finding
 }
 
 type inputVar struct {
@@ -95,7 +96,10 @@ type World struct {
 	funcsSeen  map[*ssa.Function]bool
 	stubsSeen  map[string]bool
 
-	userData map[string]any // scratch for intrinsic models
+	userData     map[string]any // scratch for intrinsic models
+	started      []*Thread
+	lastPanicLoc string
+	concrete     map[string]any // concrete re-execution: input values by name
 }
 
 func (w *World) unsupported(format string, args ...any) unsupportedErr {
@@ -103,6 +107,12 @@ func (w *World) unsupported(format string, args ...any) unsupportedErr {
 	if w.cur != nil && len(w.cur.frames) > 0 {
 		fr := w.cur.frames[len(w.cur.frames)-1]
 		loc = " in " + fr.fn.String() + fr.posString(w.eng)
+		n := 0
+		for i := len(w.cur.frames) - 2; i >= 0 && n < 6; i-- {
+			f := w.cur.frames[i]
+			loc += " < " + f.fn.String() + f.posString(w.eng)
+			n++
+		}
 	}
 	return unsupportedErr{fmt.Sprintf(format, args...) + loc}
 }
@@ -213,11 +223,64 @@ func (w *World) uniqueName(name string) string {
 	return fmt.Sprintf("%s#%d", name, k)
 }
 
-func (w *World) newInput(name, kind string, sort Sort) *Term {
+func (w *World) newInput(name, kind string, sort Sort) Value {
 	nm := w.uniqueName(name)
+	if w.concrete != nil {
+		v := concreteInput(w.concrete[nm], kind)
+		w.inputs = append(w.inputs, &inputVar{name: nm, kind: kind, conc: v})
+		return v
+	}
 	t := w.tf.fresh(sort, nm)
 	w.inputs = append(w.inputs, &inputVar{name: nm, term: t, kind: kind})
 	return t
+}
+
+func concreteInput(raw any, kind string) Value {
+	switch kind {
+	case "bool":
+		b, _ := raw.(bool)
+		return b
+	case "string":
+		s, _ := raw.(string)
+		return s
+	case "float64":
+		switch x := raw.(type) {
+		case float64:
+			return x
+		}
+		return float64(0)
+	}
+	var v int64
+	switch x := raw.(type) {
+	case int64:
+		v = x
+	case uint64:
+		v = int64(x)
+	case float64:
+		v = int64(x)
+	case string:
+		var u uint64
+		if _, err := fmt.Sscan(x, &u); err == nil {
+			v = int64(u)
+		} else {
+			fmt.Sscan(x, &v)
+		}
+	}
+	switch kind {
+	case "int8":
+		return int64(int8(v))
+	case "int16":
+		return int64(int16(v))
+	case "int32":
+		return int64(int32(v))
+	case "uint8":
+		return int64(uint8(v))
+	case "uint16":
+		return int64(uint16(v))
+	case "uint32":
+		return int64(uint32(v))
+	}
+	return v
 }
 
 // model extracts concrete input values under the current solver context (+extra assertion).
@@ -293,11 +356,49 @@ func (w *World) schedDecisions() []int {
 }
 
 func (w *World) reportViolation(kind, label, extra string) {
+	if w.concrete != nil {
+		w.violations = append(w.violations, &Violation{Harness: w.eng.cfg.Entry, Kind: kind, Label: label})
+		return
+	}
+	// known findings: look for a violation outside the listed failing inputs first
+	knownDesc := ""
+	var conj []string
+	if extra != "" {
+		conj = append(conj, extra)
+	}
+	matched := false
+	for _, k := range w.eng.known {
+		if k.Label != label || (k.Kind != "" && k.Kind != kind) {
+			continue
+		}
+		matched = true
+		knownDesc = k.What
+		if k.AssumeAway != "" {
+			conj = append(conj, "(not "+k.AssumeAway+")")
+		} else {
+			conj = append(conj, "false")
+		}
+	}
+	if matched {
+		q := "(and " + strings.Join(conj, " ") + ")"
+		if len(conj) == 1 {
+			q = conj[0]
+		}
+		if _, ok := w.model(q); ok {
+			extra = q
+			knownDesc = "" // a failing input outside every listed finding
+		}
+	}
 	inputs, ok := w.model(extra)
 	if !ok {
 		w.inconc = "no model for violation " + label
 		return
 	}
+	defer func() {
+		if knownDesc != "" {
+			w.violations[len(w.violations)-1].Known = knownDesc
+		}
+	}()
 	v := &Violation{Harness: w.eng.cfg.Entry, Kind: kind, Label: label, Inputs: inputs, Sched: w.schedDecisions(),
 		Path: append([]Decision{}, w.trace...)}
 	if len(w.log) > 0 {
@@ -378,6 +479,7 @@ func (w *World) globalAddr(g *ssa.Global) Ptr {
 }
 
 var initDeny = map[string]bool{
+	"errors": true, "internal/reflectlite": true, "internal/abi": true, "fmt": true, "strconv": false,
 	"os": true, "syscall": true, "runtime": true, "reflect": true, "net": true, "os/signal": true,
 	"internal/poll": true, "internal/godebug": true, "os/exec": true, "os/user": true, "crypto/rand": true,
 	"net/http": true, "testing": true, "flag": true, "log": true, "time": true, "sync": true, "unicode": true,
